@@ -376,6 +376,10 @@ def loop_site_obligations():
                     obs.append(Obligation(f"{pname}/{oname.split('/')[0]}/{oname.split('/')[1].split(':')[-1]}",
                                           "callsite", opc, zbool(goal), key, f"insertion-{ri}", pi,
                                           {"trace": list(s2.trace)}))
+                if k2 == "exc" and v.cls in (NameError, UnboundLocalError):
+                    info["unsupported"].append(f"insertion region at line {node.lineno} reads a local defined outside it "
+                                               f"({v.note}): the argument per element no longer applies")
+                    continue
                 if k2 == "exc":
                     continue      # raising (flatname exhausted, type errors) is an allowed way out
                 adds = [c for c in s2.calls if c[0] == InternalAdd.key]
